@@ -251,6 +251,14 @@ func (ex *Exec) execEffect(fr *Frame, st *State, ins ssa.Instruction) {
 		kv := ex.val(fr, st, x.Key)
 		vv := ex.val(fr, st, x.Value)
 		ex.safety(fr, st, ins, "nilmap", x.Map, Ne(m.L[0], Int(0)))
+		if mi := ex.specs.MapInvs[typeKey(m.T)]; mi != nil {
+			env := ex.baseEnv(fr, st)
+			env.vars[mi.Var] = Value{T: m.T.Underlying().(*types.Map).Elem(), L: vv.L}
+			if g := tryBool(env, mi.Expr); g != nil {
+				ex.oblige(st, "mapinv@"+typeKey(m.T), ex.safetyLabel(fr.fn, ins, "nilmap", x.Map), ex.safetyProps(fr)[1:], g, x.Pos(), fnKeyOf(fr.fn))
+				st.assume(g)
+			}
+		}
 		ex.mapStore(st, m, kv.L[0], vv)
 	default:
 		ex.unsupp("instruction %T in %s", ins, fr.fn.Name())
@@ -864,6 +872,27 @@ func (ex *Exec) mapHas(st *State, m Value, k *Term) *Term {
 }
 
 func (ex *Exec) mapLoad(st *State, m Value, k *Term) Value {
+	v := ex.mapLoadRaw(st, m, k)
+	if mi := ex.specs.MapInvs[typeKey(m.T)]; mi != nil && !ex.inTypeInv {
+		ex.inTypeInv = true
+		env := &Env{ex: ex, cur: st, old: st, live: st, vars: map[string]Value{mi.Var: v}, pkg: pkgOf(ex.fn)}
+		func() {
+			defer func() {
+				ex.inTypeInv = false
+				if r := recover(); r != nil {
+					if _, ok := r.(specErr); ok {
+						return
+					}
+					panic(r)
+				}
+			}()
+			st.assume(Implies(ex.mapHas(st, m, k), env.boolTerm(mi.Expr)))
+		}()
+	}
+	return v
+}
+
+func (ex *Exec) mapLoadRaw(st *State, m Value, k *Term) Value {
 	mt := m.T.Underlying().(*types.Map)
 	ls := leavesOf(mt.Elem())
 	zero := zeroValue(mt.Elem())
